@@ -78,8 +78,57 @@ func firstDiff(a, b string) map[string]any {
 	return nil
 }
 
+// c01InitOrderProgram: several packages that all import fmt only (besides each other), each printing while it is
+// initialised. Since Go 1.21 the order is fixed: packages sorted by import path, repeatedly the first one whose
+// imports are all initialised.
+func c01InitOrderProgram(rng *core.Rng, id int) *gen.Program {
+	root := fmt.Sprintf("ref/i%06d", id)
+	dir := fmt.Sprintf("%s/cmd%06d", root, id)
+	names := []string{"a", "b", "c", "d", "lib/e", "lib/a", "m", "z", "app/q", "k/k2"}
+	core.Shuffle(rng, names)
+	n := rng.Range(3, 7)
+	names = names[:n]
+	files := map[string]string{}
+	deps := make([][]int, n)
+	for i := range names {
+		for j := 0; j < i; j++ {
+			if rng.Chance(1, 3) {
+				deps[i] = append(deps[i], j)
+			}
+		}
+	}
+	pkgName := func(p string) string { return p[strings.LastIndex(p, "/")+1:] }
+	for i, p := range names {
+		var sb strings.Builder
+		fmt.Fprintf(&sb, "package %s\n\nimport (\n\t\"fmt\"\n", pkgName(p))
+		for _, d := range deps[i] {
+			fmt.Fprintf(&sb, "\tp%d %q\n", d, root+"/"+names[d])
+		}
+		sb.WriteString(")\n\n")
+		fmt.Fprintf(&sb, "var V = note(%q)\n\nfunc note(s string) int {\n\tfmt.Println(s)\n\treturn %d\n}\n\n", "var "+p, i+1)
+		fmt.Fprintf(&sb, "func init() {\n\tfmt.Println(%q, V", "init "+p)
+		for _, d := range deps[i] {
+			fmt.Fprintf(&sb, ", p%d.V", d)
+		}
+		sb.WriteString(")\n}\n")
+		files[root+"/"+p+"/"+pkgName(p)+".go"] = sb.String()
+	}
+	var sb strings.Builder
+	sb.WriteString("package main\n\nimport (\n\t\"fmt\"\n")
+	for i, p := range names {
+		fmt.Fprintf(&sb, "\tp%d %q\n", i, root+"/"+p)
+	}
+	sb.WriteString(")\n\nfunc main() {\n\tfmt.Println(\"main\"")
+	for i := range names {
+		fmt.Fprintf(&sb, ", p%d.V", i)
+	}
+	sb.WriteString(")\n}\n")
+	files[dir+"/main.go"] = sb.String()
+	return &gen.Program{Files: files, MainDir: dir, Profile: "init-order"}
+}
+
 func runC01(r *core.Run) {
-	r.SetRule("typed-AST program generator, 8 profiles (arith, ctrl, scope, calls, coll, objs, pkgs, stdlib) plus hand-written sentinel programs and wide-frame programs (functions with 100-300 locals); the same files are compiled by go build GOARCH=386 and loaded by goatlang. non-trivial = accepted by the Go compiler, ran to completion (or to a planted panic) and printed at least 3 lines; distinct by source text")
+	r.SetRule("typed-AST program generator, 8 profiles (arith, ctrl, scope, calls, coll, objs, pkgs, stdlib) plus hand-written sentinel programs wide-frame programs (functions with 100-300 locals) and initialisation-order programs (3-7 packages importing fmt and each other, each printing while it is initialised); the same files are compiled by go build GOARCH=386 and loaded by goatlang. non-trivial = accepted by the Go compiler, ran to completion (or to a planted panic) and printed at least 3 lines; distinct by source text")
 	r.Assume("the Go toolchain (GOARCH=386) is the definition of Go semantics with a 32-bit int; map iteration order, out-of-range float->int conversions and struct-reference printing are kept unobservable by the generator (Go leaves them unspecified / C14 defines them differently)")
 	perProfile := r.N(120, 2500)
 	var progs []*gen.Program
@@ -98,6 +147,11 @@ func runC01(r *core.Run) {
 	// wide frames: 100-300 locals per function (slot numbers beyond 7 and 8 bits, beyond the number of globals)
 	for i := 0; i < r.N(10, 150); i++ {
 		progs = append(progs, c07WideProgram(core.Derive(r.Seed, "c01-wide", i), id))
+		id++
+	}
+	// initialisation order of independent packages (fixed by Go since 1.21 when all of them import the same standard packages)
+	for i := 0; i < r.N(60, 1000); i++ {
+		progs = append(progs, c01InitOrderProgram(core.Derive(r.Seed, "c01-init", i), id))
 		id++
 	}
 	// programs that witness recorded (open) findings: a mismatch on exactly these is reported as
